@@ -77,6 +77,13 @@ CLAIMED.update({
    note="Ground truth (who serviced which datagram) is the simulator's. WrappedWrite::send is outside the quantifier."),
 })
 
+CLAIMED.update({
+ "C10": dict(engine="simnet", category="exploration", design_ref="§5 C10",
+   technique="property-based testing of generated transition paths against the simulated segment: per-device generated ESM scripts (accept after k polls, refuse, stall, fall back), generated grouping and frame sizes, forced AL status combinations in process data cycles; oracle = the simulator's log of AL control writes and AL status bytes served",
+   text="Networks of 1..16 devices in 1..3 groups; 11 transition paths (into_init, into_pre_op_pdi, into_safe_op, into_pre_op, into_op in one or two calls, request_into_op, OP->SAFE-OP); frame sizes 60..1100 so that a status poll spans 1..6 frames. Ok => the last AL status every member served during the call carried the requested state; every member and no non-member received the request; a failing call returns within the transition timeout (virtual clock) and a call that never returns is a violation. tx_rx: subdevice_states[i] equals what member i served in that cycle, all_op / group_in_single_state / is_in_state agree with a reference over the four operational states for forced combinations. MainDevice::wait_for_state: Ok => every device served the state without error bit.",
+   note="BOOT / none / combination status values are generated and only the state list is asserted for them (the summaries are documented as ambiguous there). A device reporting the requested state together with the error bit is generated only through forced cycle values, never in transitions."),
+})
+
 NOT_YET = {}
 
 ALL = [f"C{i:02d}" for i in range(1,21)]
@@ -112,7 +119,7 @@ def main():
         {"name":"pdusim","path":"harness/vlib","serves_properties":[p for p in CLAIMED if CLAIMED[p]["engine"]=="pdusim"],"kind_free_text":"PDU-loop harness: real frame builder / TX / RX driven op by op under a virtual clock, reference frame encoder, slot snapshots through verif-hooks"},
         {"name":"sii","path":"harness/vlib/src/sii.rs","serves_properties":["C12","C13","C14"],"kind_free_text":"independent SII EEPROM encoder + in-memory EepromDataProvider (4/8 byte chunks, read budget), driven through the verif-hooks SiiQueries facade"},
         {"name":"wiregen","path":"harness/vlib/src/wiregen.rs","serves_properties":["C19"],"kind_free_text":"derive-program generator, Rust source emitter, request/response executor, bit-level reference packer"},
-        {"name":"simnet","path":"harness/vlib/src/simnet.rs","serves_properties":["C09","C11"],"kind_free_text":"simulated EtherCAT segment: frame walk over ESC register/SII/SM/FMMU/AL/mailbox(CoE)/DC models, deterministic executor under the virtual clock, coherent device generator"},
+        {"name":"simnet","path":"harness/vlib/src/simnet.rs","serves_properties":["C09","C10","C11"],"kind_free_text":"simulated EtherCAT segment: frame walk over ESC register/SII/SM/FMMU/AL/mailbox(CoE)/DC models, deterministic executor under the virtual clock, coherent device generator"},
         {"name":"a2","path":"harness/vlib/src/a2.rs","serves_properties":["C01","C02","C06"],"kind_free_text":"yield-level scheduler: parties as ucontext coroutines on one thread, baton handed over at every verif-hooks point, schedules generated (random/PCT) or enumerated (pre-emption bounded), ownership monitor"},
       ],
       "checks":checks,
